@@ -139,6 +139,15 @@ mut("C02", "thermal-thickness-model-dim", E + "Simulations/_thermal.py", "      
 mut("C17", "history-damage-not-stored", E + "Simulations/_phasefield.py", "            self._Set_solutions(self.ProblemTypes.damage, d_np1)\n            self.__updatedDisplacement = False\n", "", "PhaseField.Solve")
 mut("C20", "claim-lower-ranks-only", E + "FEM/_mesher.py", "*(dict_rank_nodes[r] for r in range(Nproc) if r != rank)", "*(dict_rank_nodes[r] for r in range(Nproc) if r < rank)", "claim")
 mut("C20", "claim-not-recorded", E + "FEM/_mesher.py", "            dict_rank_nodes[rank].update(nodes)\n            Nn += len(nodes)", "            Nn += len(nodes)", "claim")
+mut("C19", "phi-slope-drop-lam", E + "Models/InElastic/_spectral.py", "    dphi_e_pg = -(w_e_pg * lam * d_e_pg).sum(axis=-1) / safe_e_pg", "    dphi_e_pg = -(w_e_pg * d_e_pg).sum(axis=-1) / safe_e_pg", "_Phi")
+mut("C19", "tangent-sign", E + "Models/InElastic/_spectral.py", "    dtheta_e_pg = -(1.0 - res.theta * res.slope) / slope_e_pg", "    dtheta_e_pg = (1.0 - res.theta * res.slope) / slope_e_pg", "Tangent")
+mut("C19", "voce-dR", E + "Models/InElastic/IsotropicHardening.py", "        lambda p: Q * b * np.exp(-b * p),", "        lambda p: Q * np.exp(-b * p),", "Voce")
+mut("C19", "hill-normal-scale", E + "Models/InElastic/Yield.py", "        return Ps_e_pg / safe\n\n    def dNdSig", "        return 2 * Ps_e_pg / safe\n\n    def dNdSig", "Hill")
+mut("C19", "norton-dinverse", E + "Models/InElastic/ViscoPlastic.py", "        return sigma_0 / (n * A) * (np.maximum(g, _TINY) / A) ** (1 / n - 1)", "        return sigma_0 / (n * A) * (np.maximum(g, _TINY) / A) ** (1 / n)", "Norton")
+mut("C18", "dI2-shear-coef", E + "Models/HyperElastic/_state.py", "        coef = -np.sqrt(2)\n\n        dI2dC_e_pg[:, :, 0] = cyy + czz", "        coef = -2.0\n\n        dI2dC_e_pg[:, :, 0] = cyy + czz", "Compute_dI2dC")
+mut("C18", "spk-thickness-residual-only", E + "FEM/Operators/NonLinear.py", "        thickness = material.thickness\n        tangent_e *= thickness\n        residual_e *= thickness\n\n    K_e, R_e = __reorder_dofs(dim, nPe, tangent_e, residual_e)\n    return K_e, R_e\n\n\ndef GonzalezStressTensor", "        thickness = material.thickness\n        residual_e *= thickness\n\n    K_e, R_e = __reorder_dofs(dim, nPe, tangent_e, residual_e)\n    return K_e, R_e\n\n\ndef GonzalezStressTensor", "SecondPiolaKirchhoffStressTensor")
+mut("C03", "assembly-drop-empty-K", E + "Simulations/_simu.py", "        dict_KCMF = self.Construct_local_matrix_system(problemType)\n", "        dict_KCMF = {g: t for g, t in self.Construct_local_matrix_system(problemType).items() if t[0] is not None}\n", "Assembly")
+mut("C07", "weighted-jacobian-mean", E + "FEM/_mesh.py", "            values_e = jacobian_e_pg.max(1) / jacobian_e_pg.min(1)", "            values_e = jacobian_e_pg.max(1) / jacobian_e_pg.mean(1)", "unweighted")
 mut("C04", "lagrange-col-unscaled", E + "Simulations/Solvers.py", "    A[dofs_Dirichlet, linesDirichlet] = alpha\n", "    A[dofs_Dirichlet, linesDirichlet] = 1.0\n", "__Solver_2")
 mut("C02", "timo2d-shear-sign", E + "FEM/Elems/_beam.py", "            B_e_pg[:, :, 2, idx_rz] -= Nu_pg  # -θ", "            B_e_pg[:, :, 2, idx_rz] += Nu_pg  # -θ", "Get_beam_B_e_pg")
 mut("C01", "eb3d-torsion-on-ry", E + "FEM/Elems/_beam.py", "            B_e_pg[:, :, 1, idx_rx] = dN_e_pg[:, :, 0]  # torsion: drx/dx (Lagrange)", "            B_e_pg[:, :, 1, idx_rx + 1] = dN_e_pg[:, :, 0]  # torsion: drx/dx (Lagrange)", "Get_beam_B_e_pg")
@@ -157,6 +166,10 @@ mut("C17", "r-inplace-on-history", E + "Models/_phasefield.py", "        # J/m3\
 mut("C08", "coord-global-index", E + "FEM/_group_elem.py", "        connect = self._global_to_local_nodes[self.connect]\n        coord_e = self.coord[connect]", "        connect = self.connect\n        coord_e = self.coord[connect]", "index")
 mut("C08", "tag-with-local-rows", E + "FEM/_group_elem.py", "        closest_nodes = self.nodes[closest_node_indices]\n", "        closest_nodes = self._global_to_local_nodes[self.nodes[closest_node_indices]]\n", "_Get_nearby_elements")
 same("C08", "nearby-nodes-inline", E + "FEM/_group_elem.py", "        closest_nodes = self.nodes[closest_node_indices]\n\n        return closest_nodes", "        return self.nodes[closest_node_indices]")
+same("C19", "plane-stress-test-rewrite", E + "Models/InElastic/_behavior.py", "            if np.max(np.abs(r_e_pg)) < tol:", "            if np.abs(r_e_pg).max() < tol:")
+same("C18", "kelvin-voigt-distribute", E + "FEM/Operators/NonLinear.py", "    Kgeo_e = thickness * (A_mat + A_geo)", "    Kgeo_e = thickness * A_mat + thickness * A_geo")
+same("C08", "jacobian-abs-flag-local", E + "FEM/_group_elem.py", "        if absoluteValues:\n            jacobian_e_pg = np.abs(jacobian_e_pg)\n\n        return jacobian_e_pg", "        if absoluteValues:\n            jacobian_e_pg = np.absolute(jacobian_e_pg)\n        return jacobian_e_pg")
+same("C13", "field-copy-explicit", E + "FEM/_field.py", "        return copy.deepcopy(self)", "        new = copy.deepcopy(self)\n        return new")
 same("C19", "condense-rewrite", E + "Models/InElastic/_behavior.py", "        return C_in - TensorProd(c_iz, c_zi) / c_zz", "        return C_in - TensorProd(c_iz / c_zz, c_zi)")
 same("C16", "reaction-explicit-full-tuple", E + "Simulations/_simu.py", "        elif self.algo in AlgoType.Get_Hyperbolic_Types():\n            reaction[dofs] += C[dofs]", "        elif self.algo in (AlgoType.newmark, AlgoType.midpoint, AlgoType.hht, AlgoType.hht_newmark, AlgoType.euler_implicit, AlgoType.euler_explicit):\n            reaction[dofs] += C[dofs]")
 same("C11", "param-set-reordered", E + "Utilities/_params.py", "        instance.__dict__[self.__name] = value\n        if isinstance(instance, Updatable):\n            instance.Need_Update()", "        if isinstance(instance, Updatable):\n            instance.Need_Update()\n        instance.__dict__[self.__name] = value")
@@ -191,6 +204,14 @@ RENAME = [
     ("C02", "EasyFEA.FEM.Elems._beam._Timoshenko.Get_beam_B_e_pg"), ("C01", "EasyFEA.FEM.Elems._beam._EulerBernoulli.Get_beam_B_e_pg"), ("C02", "EasyFEA.FEM.Elems._beam._EulerBernoulli.Get_Hermitian_ddN_e_pg"),
     ("C08", "EasyFEA.FEM._group_elem._GroupElem._Get_nearby_nodes"), ("C08", "EasyFEA.FEM._group_elem._GroupElem._Get_nearby_elements"), ("C08", "EasyFEA.FEM._group_elem._GroupElem.Get_Elements_Nodes"), ("C08", "EasyFEA.FEM._group_elem._GroupElem._Get_Mapping"),
     ("C02", "EasyFEA.Simulations._thermal.Thermal.Construct_local_matrix_system"), ("C17", "EasyFEA.Simulations._phasefield.PhaseField.Solve"),
+    ("C04", "EasyFEA.Simulations._simu._Simu.add_dirichlet"), ("C09", "EasyFEA.Simulations._simu._Simu.__Bc_evaluate"), ("C09", "EasyFEA.FEM._group_elem._GroupElem.Get_Elements_Nodes"),
+    ("C07", "EasyFEA.FEM._group_elem._GroupElem.center"), ("C08", "EasyFEA.FEM._group_elem._GroupElem.Get_jacobian_e_pg"), ("C12", "EasyFEA.FEM._linalg._FeShape"),
+    ("C13", "EasyFEA.FEM._field.Field.copy"), ("C14", "EasyFEA.Simulations._hyperelastic.HyperElastic.__Mass_e"), ("C16", "EasyFEA.Simulations._simu._Simu.Results_Reshape_values"),
+    ("C18", "EasyFEA.Models.HyperElastic._state.HyperElasticState._Compute_Anisotropic_Invariants_First_Derivatives"), ("C18", "EasyFEA.Models.HyperElastic._state.HyperElasticState.Compute_dI2dC"), ("C18", "EasyFEA.Models.HyperElastic._state.HyperElasticState.Compute_d2I3dC"),
+    ("C18", "EasyFEA.FEM.Operators.NonLinear.KelvinVoigtDamping"), ("C18", "EasyFEA.FEM.Operators.NonLinear.SecondPiolaKirchhoffStressTensor"), ("C18", "EasyFEA.FEM.Operators.NonLinear.GonzalezStressTensor"),
+    ("C19", "EasyFEA.Simulations._inelastic.InElastic.Set_Iter"), ("C19", "EasyFEA.Models.InElastic._behavior.Behavior.__Plane_stress_strain"), ("C19", "EasyFEA.Models.InElastic._spectral.Solve"), ("C19", "EasyFEA.Models.InElastic._spectral._Phi"), ("C19", "EasyFEA.Models.InElastic._spectral.Tangent"),
+    ("C19", "EasyFEA.Models.InElastic.Yield.Hill"), ("C19", "EasyFEA.Models.InElastic.Yield._dNormal_J2"), ("C19", "EasyFEA.Models.InElastic.ViscoPlastic.Norton"),
+    ("C20", "EasyFEA.FEM._mesher.Mesher.__Get_dict_groupElems"), ("C10", "EasyFEA.Models.Beam._beam._Beam._Calc_P"), ("C03", "EasyFEA.FEM._boundary_conditions.BoundaryCondition.Get_dofs_nodes"),
     ("C09", "EasyFEA.Simulations._beam.Beam.add_lineLoad"), ("C11", "EasyFEA.Utilities._params._Parameter.__set__"),
     ("C14", "EasyFEA.Simulations._phasefield.PhaseField.Solve"), ("C14", "EasyFEA.Simulations._phasefield.PhaseField.Set_Iter"), ("C14", "EasyFEA.Simulations._phasefield.PhaseField.Get_K_C_M_F"),
     ("C15", "EasyFEA.Simulations._simu._Simu.Set_Iter"), ("C16", "EasyFEA.Models._utils.Result_strain_or_stress_field_e"), ("C16", "EasyFEA.Simulations._simu._Simu.Calc_Reaction"),
